@@ -21,14 +21,33 @@ public:
     void queue(const QByteArray &seg) { mIn.append(seg); }
     void feed(const QByteArray &seg) { mIn.append(seg); Q_EMIT readyRead(); }
     void ack(qint64 n) { Q_EMIT bytesWritten(n); }
+    // life mode (family "lifed"): the transport keeps count of bytes not yet handed to the network and behaves
+    // like QAbstractSocket::close(): the connection is torn down (disconnected() emitted) once those are flushed
+    bool lifeMode = false;
+    bool lifeDisconnected() const { return mDisc; }
+    qint64 lifeUnacked() const { return mUnacked; }
+    void ackAll()
+    {
+        qint64 n = mUnacked;
+        mUnacked = 0;
+        if (n > 0) Q_EMIT bytesWritten(n);
+        if (mLifeClosing && !mDisc) { mDisc = true; Q_EMIT disconnected(); }
+    }
     void peerFin() { Q_EMIT readChannelFinished(); }
-    void peerDrop() { setOpenMode(QIODevice::NotOpen); Q_EMIT disconnected(); }
+    void peerDrop() { if (lifeMode && mDisc) return; mDisc = true; setOpenMode(QIODevice::NotOpen); Q_EMIT disconnected(); }
     bool simOpen() const { return isOpen(); }
 
     qint64 bytesAvailable() const override { return mIn.size() + QIODevice::bytesAvailable(); }
     bool isSequential() const override { return true; }
     void close() override
     {
+        if (lifeMode) {
+            if (!isOpen()) return;
+            setOpenMode(QIODevice::NotOpen);
+            if (mUnacked == 0) { if (!mDisc) { mDisc = true; Q_EMIT disconnected(); } }
+            else mLifeClosing = true;
+            return;
+        }
         if (isOpen()) {
             if (onClose && !mClosing) onClose();
             setOpenMode(QIODevice::NotOpen);
@@ -56,10 +75,13 @@ protected:
     qint64 writeData(const char *data, qint64 len) override
     {
         if (len > 0 && onWrite) onWrite(QByteArray(data, len));
+        if (lifeMode) mUnacked += len;
         return len;
     }
 
 private:
     QByteArray mIn;
     bool mClosing = false;
+    bool mLifeClosing = false, mDisc = false;
+    qint64 mUnacked = 0;
 };
